@@ -91,8 +91,11 @@ def run(ctx):
                        "what": "findVerifiedParents(%s) on pool %s returned indices %s: not all are members whose signature over the child verifies"
                                % (o["child"], o["pool"], o["idxs"]),
                        "case": {"universe": r["universe"], "trace": True,
-                                "events": [{"ev": "reset"}] + [{"ev": "add", "p": 1, "c": c} for c in o["pool"]] +
-                                          [{"ev": "parents", "p": 1, "child": o["child"], "idxs": o["idxs"]}]}})
+                                # the lookups this child object went through before, then the failing one: the
+                                # lookup writes to its argument, so its history is part of the input
+                                "events": [e for pool in o.get("prior", []) + [o["pool"]]
+                                           for e in ([{"ev": "reset"}] + [{"ev": "add", "p": 1, "c": c} for c in pool] +
+                                                     [{"ev": "parents", "p": 1, "child": o["child"], "idxs": []}])]}})
         if pj["drift"]:
             ctx.note("MODEL-DRIFT property=C08: %d of %d parent lookups differ from the B layer's prediction (first: %s)"
                      % (len(pj["drift"]), pj["n"], json.dumps(pj["drift"][0])))
